@@ -49,7 +49,8 @@ Proof.
   intros Hp Hf Hlf Hlen. destruct part as [|a p']; [congruence|].
   unfold step_f. cbn [hst payload upgraded in_flight lines should_close tail pending_upgrade].
   rewrite queue_open, Hf, Hlf. unfold limit_for in Hlen.
-  assert (E1 : (match pre with [] => max_line lim | _ :: _ => max_field lim end <? lenN (a :: p')) = false) by lia.
+  assert (E1 : (match pre with [] => max_line lim | _ :: _ => max_field lim end <? tail_len tail_check_discounts_cr (a :: p')) = false)
+    by (pose proof (tail_len_le tail_check_discounts_cr (a :: p')); lia).
   unfold bytes in *. rewrite E1. reflexivity.
 Qed.
 
